@@ -467,3 +467,112 @@ def c09(rec):
             judge("einsum", lambda: einsum(eq, *factors, plates=pl, backend=backend))
             judge("naive_plated_einsum", lambda: naive_plated_einsum(eq, *factors, plates=pl, backend=backend))
     return out
+
+
+# ---------------------------------------------------------------------------
+# C10: Markov products
+
+def _exp_as_ten(exp):
+    """the oracle's table as a tensor-leaf AST (lhs of a C->S event)"""
+    return {"c": "Ten", "ins": [[n, d["dt"]] for n, d in exp["ins"]], "dt": exp["out"]["dt"], "sh": [],
+            "data": [row["v"][0] for row in exp["tab"]]}
+
+
+def c10(rec):
+    """C10: sequential / mixed (every num_segments) / naive sequential sum-product and
+    MarkovProduct (eager, and lazy then reinterpreted) equal the explicit left fold TLC
+    computed; the lazily emitted scan terms are returned as events for TLC."""
+    from funsor.sum_product import (MarkovProduct, mixed_sequential_sum_product,
+                                    naive_sequential_sum_product, sequential_sum_product)
+    from funsor.terms import Variable
+    from funsor.domains import Bint
+    from . import fast
+    exp = rec["exp"]
+    sig = json_sig(rec["sig"], rec["plus"], rec["times"])
+    plus, times = fbuild.ASSOC[rec["plus"]], fbuild.ASSOC[rec["times"]]
+    trans = fbuild.Builder().build(rec["trans"])
+    T = rec["T"]
+    time = Variable("time", Bint[T])
+    step = {p: c for p, c in rec["step"]}
+    out = []
+    events = []
+
+    def judge(what, fn):
+        try:
+            r = fn()
+        except Exception as e:  # noqa
+            out.append(_verdict("C10", "declined_error", what + ":" + type(e).__name__, str(e)[:100], sig=sig))
+            return None
+        v = _eval_check(r, exp, "C10", what, need_output=False)
+        v["sig"] = sig
+        out.append(v)
+        return r
+
+    judge("sequential", lambda: sequential_sum_product(plus, times, trans, time, step))
+    judge("naive", lambda: naive_sequential_sum_product(plus, times, trans, time, step))
+    for k in range(1, T + 1):
+        judge("mixed[%d]" % k, lambda: mixed_sequential_sum_product(plus, times, trans, time, step, num_segments=k))
+    judge("MarkovProduct", lambda: MarkovProduct(plus, times, trans, time, step))
+
+    def lazy_mp():
+        with lazy:
+            m = MarkovProduct(plus, times, trans, time, step)
+        return funsor.reinterpret(m)
+    judge("MarkovProduct_lazy", lazy_mp)
+    # C->S: the scan run under lazy emits a term (slices, cats, contractions, renamings)
+    lhs = _exp_as_ten(exp)
+    for what, fn in (("sequential", lambda: sequential_sum_product(plus, times, trans, time, step)),
+                     ("mixed", lambda: mixed_sequential_sum_product(plus, times, trans, time, step,
+                                                                    num_segments=max(1, T // 2)))):
+        try:
+            with lazy:
+                term = fn()
+            events.append({"kind": "deneq", "what": what + "_lazy", "sig": sig, "lhs": lhs, "rhs": fast.to_ast(term)})
+        except fast.Unrepresentable as ex:
+            out.append(_verdict("C10", "skipped_unrepresentable", what + ":" + str(ex)[:40], sig=sig))
+        except Exception as ex:  # noqa
+            out.append(_verdict("C10", "declined_error", what + "_lazy:" + type(ex).__name__, sig=sig))
+    out.extend({"status": "_event", "event": e} for e in events)
+    return out
+
+
+def json_sig(sig, plus, times):
+    return "%s/%s %s" % (plus, times, ",".join("%s=%s" % (k, sig[k]) for k in sorted(sig)))
+
+
+def c10lag(rec):
+    """C10 (lags): sarkka_bilmes_product equals naive_sarkka_bilmes_product.  The naive
+    algorithm's lazily built term is an event for TLC (project); the parallel algorithm's
+    eager value is attached to it and compared with the table TLC computes."""
+    from funsor.sum_product import naive_sarkka_bilmes_product, sarkka_bilmes_product
+    from funsor.terms import Variable
+    from funsor.domains import Bint
+    from . import fast, recorder
+    sig = json_sig(rec["sig"], rec["plus"], rec["times"])
+    plus, times = fbuild.ASSOC[rec["plus"]], fbuild.ASSOC[rec["times"]]
+    trans = fbuild.Builder().build(rec["trans"])
+    time = Variable("time", Bint[rec["T"]])
+    gv = frozenset(["b"]) if rec["glob"] else frozenset()
+    out = []
+    try:
+        fast_r = sarkka_bilmes_product(plus, times, trans, time, gv, num_periods=rec["periods"])
+        naive_r = naive_sarkka_bilmes_product(plus, times, trans, time, gv)
+    except Exception as e:  # noqa
+        return [_verdict("C10", "declined_error", "sarkka:" + type(e).__name__, str(e)[:100], sig=sig)]
+    try:
+        with lazy:
+            term = naive_sarkka_bilmes_product(plus, times, trans, time, gv)
+        ast = fast.to_ast(term)
+        g = recorder.RuleRecorder.ground(fast_r)
+        if g is None:
+            return [_verdict("C10", "declined_lazy", "sarkka_result_lazy", sig=sig)]
+        out.append({"status": "_event", "event": {"kind": "project", "what": "sarkka_vs_naive_term", "sig": sig,
+                                                  "t": ast, "lhs": ast, "_rhs": g}})
+        g2 = recorder.RuleRecorder.ground(naive_r)
+        out.append({"status": "_event", "event": {"kind": "project", "what": "naive_eager_vs_naive_term", "sig": sig,
+                                                  "t": ast, "lhs": ast, "_rhs": g2}})
+    except fast.Unrepresentable as ex:
+        out.append(_verdict("C10", "skipped_unrepresentable", str(ex)[:60], sig=sig))
+    except Exception as ex:  # noqa
+        out.append(_verdict("C10", "declined_error", "naive_lazy:" + type(ex).__name__, str(ex)[:100], sig=sig))
+    return out
